@@ -130,7 +130,7 @@ func describe(src, ref, got string) string {
 
 func checkDoc(c Case, st *stats) error {
 	src := []byte(c.Src)
-	ref, err := refHTML(src, false)
+	ref, err := refHTML(src)
 	if err != nil {
 		return nil // the reference cannot render it: nothing to compare (never observed)
 	}
@@ -211,10 +211,14 @@ func checkOverride(c Case, st *stats) error {
 		files["markdown/"+name+".vuego"] = r + "\n"
 	}
 	src := []byte(c.Src)
-	ref, err := refHTML(src, set["raw_html"])
+	if strings.Contains(c.Src, rawStart) || strings.Contains(c.Src, rawEnd) {
+		return nil // the oracle's own bracket characters: not checked
+	}
+	bracketed, err := refHTMLBracketed(src, set["raw_html"])
 	if err != nil {
 		return nil
 	}
+	ref := stripBrackets.Replace(bracketed)
 	got, err := renderVuego(src, files)
 	if err != nil {
 		return fmt.Errorf("rendering with overridden %v failed: %v%s", c.Override, err, describe(c.Src, ref, got))
@@ -223,9 +227,9 @@ func checkOverride(c Case, st *stats) error {
 	if st.skip(c, fa) {
 		return nil
 	}
-	want, attributable := markRef(ref, set, fa.aKinds)
+	want, attributable := markRef(bracketed, set, fa.aKinds)
 	if !attributable {
-		return nil // raw <a href=..> without data-raw in a hand-written case: expected marking unknown
+		return nil // the <a> tags of the reference do not match the AST (never observed)
 	}
 	d, tolerated := compare(want, got, tolerances(c))
 	if d != "" {
@@ -275,6 +279,14 @@ func kitchenSink() string {
 		"[ref]: /r 'rt'",
 		"",
 	}, "\n")
+}
+
+// overrideRegressions: raw HTML whose tag names are also produced by templates must not be marked.
+var overrideRegressions = []string{
+	"`x\nx\n<!-- c -->` a \\<br>",              // <br> inside a type 2 HTML block
+	"a <br> b <em>c</em> <a href=\"/x\">d</a>", // inline raw HTML with template tag names
+	"<pre><code>x</code></pre>\n\n<p>y</p>\n\n<hr>\n\n<ul><li>z</li></ul>",
+	"<table><tr><td>1</td></tr></table>\n\n<img src=\"i.png\"> <input type=\"checkbox\"> <del>d</del> <strong>s</strong> <h2>h</h2> <blockquote>q</blockquote> <ol><li>o</li></ol>",
 }
 
 // ---- kind "bytes" --------------------------------------------------------------------------
@@ -492,7 +504,25 @@ func TestProp(t *testing.T) {
 			}
 		}
 	}
+	// the bracketing reference renderer must render exactly what the plain one renders
+	for _, src := range append([]string{sink}, overrideRegressions...) {
+		plain, _ := refHTML([]byte(src))
+		br, _ := refHTMLBracketed([]byte(src), false)
+		if stripBrackets.Replace(br) != plain {
+			t.Fatalf("harness: bracketed reference differs from the plain reference for %q", src)
+		}
+	}
 	okAll := true
+	if shard == 0 {
+		// sources that once produced a false alarm of the override oracle, with every template overridden
+		for _, src := range overrideRegressions {
+			c := Case{Src: src, Override: subsetOf(1<<len(templateNames) - 1)}
+			nt, cls := classifyOverride(c)
+			if !run.Each(rec, "override-enum", c, nt, cls, func(c Case) error { return checkOverride(c, st) }) {
+				okAll = false
+			}
+		}
+	}
 	for i, s := range subsets {
 		if i%shards != shard {
 			continue
@@ -520,7 +550,6 @@ func TestProp(t *testing.T) {
 	// (3) generated documents x random subsets of overridden templates
 	run.Rapid(t, rec, "override", func(t *rapid.T) Case {
 		g := newGen(t, rec)
-		g.ovSafe = true
 		src := g.document()
 		var s []string
 		switch rapid.IntRange(0, 3).Draw(t, "density") {
